@@ -648,6 +648,13 @@ class Sim:
             ctx.probe("interleaved_shared_listener_interference")
             t.state = "interfered"
             return
+        if kind == "ephem" and getattr(t, "lidx", None) and isinstance(exc, ValueError) and "impossible to interpolate" in str(exc) and len(self.table_ms(t.obj)) < self.kn.get("ephem_order", 8):
+            # locating an event between two stored points needs an interpolation that a table shorter than the interpolation order
+            # cannot give: the refusal (C09: refused, not extrapolated / not guessed) is legitimate, also when the samples themselves
+            # are the stored points
+            ctx.probe("short_table_event_location_refused")
+            t.state = "done"
+            return
         backward = len(exp) >= 2 and exp[1] < exp[0]
         n_exp = len(exp)
         span_steps = None
